@@ -98,6 +98,31 @@ func driverSnap(c *Ctx) {
 		ev := observe(it)
 		ev["ev"], ev["kind"] = "snap", "item"
 		c.emit(i, ev)
+		if i%5 == 0 {
+			// try to get the same name twice into one tree; whatever can be built is observed like any other item
+			n := g.newVar()
+			for _, build := range []func() ast.ItemNode{
+				func() ast.ItemNode { return ast.NewListNode(ast.NewUintNode(1, n), ast.NewIntNode(2, n)) },
+				func() ast.ItemNode {
+					return ast.NewListNode(ast.NewListNode(ast.NewBooleanNode(n)), it, ast.NewListNode(ast.NewASCIINodeVariable(n, 0, -1)))
+				},
+				func() ast.ItemNode {
+					return ast.NewListNode(ast.NewUintNode(1, "zz9"), ast.NewIntNode(2, n)).FillVariables(map[string]interface{}{"zz9": n})
+				},
+				func() ast.ItemNode {
+					return ast.NewListNode("zz9", ast.NewIntNode(2, n)).FillVariables(map[string]interface{}{"zz9": ast.NewFloatNode(4, n)})
+				},
+				func() ast.ItemNode { return ast.NewListNode(n, ast.NewListNode(n)) },
+			} {
+				var d ast.ItemNode
+				if p, _ := try(func() { d = build() }); !p {
+					dev := observe(d)
+					dev["ev"], dev["kind"] = "snap", "item"
+					c.emit(i, dev)
+					c.count("snap.duplicate-built")
+				}
+			}
+		}
 		gm := g.header(false)
 		m := ast.NewDataMessage(gm.Name, gm.S, gm.F, gm.W, gm.Dir, it)
 		if g.pick(2) == 0 {
